@@ -689,7 +689,7 @@ def _obs_rel(c, data, fthr=None, fsize=None):
             raise
         return [np.array(b.background_mesh), np.array(b.background_rms_mesh), np.array(b.npixels_mesh),
                 np.array(b.background), np.array(b.background_rms),
-                np.isnan(np.array(b.background_mesh_masked))]
+                np.isnan(np.array(b.mesh_nmasked))]     # (background_mesh_masked cannot hold NaN for integer input)
 
 
 def _same(a, b):
@@ -816,6 +816,196 @@ def run_relations(c):
     compare('Background2D:shift-equivariance', _obs_rel(cn, (data + sh).astype(data.dtype)), 1.0, sh,
             FAC * ulp * (abs(sh) + scale), f'adding {sh!r} to the data')
     return fails, base
+
+
+# --------------------------------------------------------------------------
+# large boxes at high levels in float32 / integer images (the numpy nan-statistics path must not lose precision)
+# --------------------------------------------------------------------------
+BIG_DTYPES = ['float32', 'uint16', 'int32', 'float32', 'float64']
+
+
+def gen_bigbox(seed, k):
+    g = np.random.default_rng(seed)
+    rng = random.Random(seed)
+    dtype = BIG_DTYPES[k % len(BIG_DTYPES)]
+    n0 = int(g.integers(96, 161))
+    n1 = int(g.integers(96, 161))
+    box = (int(g.choice([48, 64, 96, 128, n0])), int(g.choice([48, 64, 100, 128, n1])))
+    level = float(rng.choice([300.0, 5000.0, 20000.0, 40000.0, 65000.0, 1.0e5]) * rng.choice([1.0, 1.0, 0.7300109]))
+    if dtype == 'uint16':
+        level = min(level, 65000.0)
+    kind = ('const', 'near', 'ramp')[(k // len(BIG_DTYPES)) % 3]
+    if kind == 'const':
+        data = np.full((n0, n1), level)
+    elif kind == 'near':
+        data = level + g.integers(-3, 4, (n0, n1)) * (1.0 if dtype != 'float32' else 0.25)
+    else:
+        yy, xx = np.mgrid[0:n0, 0:n1]
+        data = level + 0.02 * xx + 0.01 * yy + g.integers(-2, 3, (n0, n1))
+    if dtype in ('uint16', 'int32'):
+        data = np.rint(data)
+    data = data.astype(dtype)
+    mask = None
+    if rng.random() < 0.5:
+        mask = g.random((n0, n1)) < 0.05
+    return dict(seed=seed, k=k, data=data, box=box, mask=mask, cov=None, fill=0.0, p=50, fsize=(1, 1), fthr=None,
+                interp='zoom', bkg=BKG[k % len(BKG)], rms=RMS[k % len(RMS)], sclip=rng.choice([None, None, 3.0]),
+                kind=kind, level=level)
+
+
+def run_bigbox(c):
+    """mesh = reference (float64) estimator of each block to float32-accumulation accuracy; constant image
+    reproduced; integer shift adds the shift.  Integer input is cast to float32 by Background2D and the outputs are
+    cast back to the integer dtype (documented), hence the +1 allowance."""
+    fails = []
+    data = c['data']
+    isint = data.dtype.kind in 'iu'
+    f64 = data.dtype == np.float64
+    rel = 1e-11 if f64 else 1e-5
+    slack = 1.0 if isint else 0.0
+    cfg = f"{data.dtype}/{data.shape}/box={c['box']}/level={c['level']:g}/{c['kind']}/{c['bkg']}/{c['rms']}/clip={c['sclip']}"
+    base = _obs_rel(c, data.copy())
+    if base is None:
+        return [('Background2D:raises', f'all boxes excluded on a 5 % masked image ({cfg})')]
+    bm, rm, npx, bmap, rmap, excl = base
+    d = data.astype(np.float32).astype(float) if not f64 else data.astype(float)
+    ny, nx = d.shape
+    by, bx = min(c['box'][0], ny), min(c['box'][1], nx)
+    bad = np.zeros(d.shape, bool) if c['mask'] is None else c['mask']
+    lev = float(np.max(np.abs(d)))
+    for i in range(-(-ny // by)):
+        for j in range(-(-nx // bx)):
+            sl = (slice(i * by, (i + 1) * by), slice(j * bx, (j + 1) * bx))
+            v = ref_clip(d[sl][~bad[sl]], c['sclip'])
+            if int(npx[i, j]) != v.size:
+                if c['sclip'] is None:
+                    fails.append(('Background2D:npixels_mesh', f'npixels_mesh[{i},{j}]={npx[i, j]} != {v.size} ({cfg})'))
+                continue
+            if excl[i, j] or v.size == 0:
+                continue
+            if not (c['bkg'] == 'SExtractorBackground' and
+                    abs(abs(float(np.mean(v)) - float(np.median(v))) - 0.3 * float(np.std(v))) < 4 * rel * lev):
+                rb = ref_estimate(c['bkg'], v)
+                if not abs(float(bm[i, j]) - rb) <= rel * lev + slack:
+                    fails.append(('Background2D:mesh-value', f'background_mesh[{i},{j}]={bm[i, j]!r} but {c["bkg"]} of the '
+                                  f'{v.size} unmasked pixels of the box is {rb!r} ({cfg})'))
+            rr = ref_estimate(c['rms'], v)
+            if not abs(float(rm[i, j]) - rr) <= rel * lev + 1e-4 * abs(rr) + slack:
+                fails.append(('Background2D:rms-mesh-value', f'background_rms_mesh[{i},{j}]={rm[i, j]!r} but {c["rms"]} of '
+                              f'the {v.size} unmasked pixels of the box is {rr!r} ({cfg})'))
+    if c['kind'] == 'const':
+        cval = float(d.flat[0])
+        dev = max(float(np.max(np.abs(bmap.astype(float) - cval))), float(np.max(np.abs(bm.astype(float) - cval))))
+        rdev = max(float(np.max(np.abs(rmap.astype(float)))), float(np.max(np.abs(rm.astype(float)))))
+        if dev > rel * lev + slack or rdev > rel * lev + slack:
+            fails.append(('Background2D:constant-image', f'constant image {cval!r}: max |background - c| = {dev:.4g}, '
+                          f'max RMS = {rdev:.4g} ({cfg})'))
+    # shift by an integer that keeps the data exactly representable
+    sh = float(random.Random(c['seed'] ^ 77).choice([16, 250, 1000]))
+    if not (data.dtype == np.uint16 and lev + sh > 65535):
+        so = _obs_rel(c, (data + data.dtype.type(sh)).astype(data.dtype))
+        tol = 4 * rel * (lev + sh) + 2 * slack
+        if so is None or not np.array_equal(so[2], npx):
+            if c['sclip'] is None:
+                fails.append(('Background2D:shift-equivariance', f'adding {sh}: npixels_mesh changes ({cfg})'))
+        elif not (_near(so[0].astype(float), bm.astype(float) + sh, tol) and _near(so[1].astype(float), rm.astype(float), tol)
+                  and _near(so[3].astype(float), bmap.astype(float) + sh, tol) and _near(so[4].astype(float), rmap.astype(float), tol)):
+            fails.append(('Background2D:shift-equivariance', f'adding {sh} does not add {sh} to the background / keep the '
+                          f'RMS to within {tol:.3g} ({cfg})'))
+    return fails[:4]
+
+
+# --------------------------------------------------------------------------
+# sequences of Background2D objects in one process that share an interpolator instance (the default argument is
+# ONE instance for all objects): every read must equal the same request computed in isolation, and the returned
+# maps must not be aliased to internal state
+# --------------------------------------------------------------------------
+def gen_sequence(seed):
+    rng = random.Random(seed)
+    c = gen_rel(rng.randrange(1 << 30), rng.randrange(36))
+    c['seed'] = seed
+    c['sclip'] = rng.choice([None, 3.0])
+    ny, nx = c['data'].shape
+    A = _mask(rng, ny, nx, rng.choice(['random', 'block', 'band', 'one']))
+    B = _mask(rng, ny, nx, rng.choice(['random', 'one']))
+    share = rng.choice(['default', 'default', 'explicit-zoom', 'explicit-idw'])
+    reqs = []
+    for _ in range(rng.randint(3, 6)):
+        kind = rng.choice(['cov=A', 'mask=A', 'none', 'cov=A,mask=B', 'cov=B,mask=A', 'cov=A', 'mask=A'])
+        reqs.append(dict(kind=kind, fill=rng.choice([0.0, 0.0, -1.5, 1000.0, float('nan')]),
+                         order=rng.choice(['b', 'r', 'br', 'rb', 'bb', 'brb']), scribble=rng.random() < 0.5))
+    return c, A, B, share, reqs
+
+
+def _seq_build(c, A, B, req, interp):
+    import photutils.background as pb
+    from astropy.stats import SigmaClip
+    mask = {'cov=A': None, 'mask=A': A, 'none': None, 'cov=A,mask=B': B, 'cov=B,mask=A': A}[req['kind']]
+    cov = {'cov=A': A, 'mask=A': None, 'none': None, 'cov=A,mask=B': A, 'cov=B,mask=A': B}[req['kind']]
+    kw = dict(mask=None if mask is None else mask.copy(), coverage_mask=None if cov is None else cov.copy(),
+              fill_value=req['fill'], exclude_percentile=c['p'], filter_size=c['fsize'],
+              sigma_clip=None if c['sclip'] is None else SigmaClip(sigma=c['sclip'], maxiters=10),
+              bkg_estimator=getattr(pb, c['bkg'])(), bkgrms_estimator=getattr(pb, c['rms'])())
+    if interp is not None:
+        kw['interpolator'] = interp
+    return pb.Background2D(c['data'].copy(), c['box'], **kw)
+
+
+def run_sequence(seed):
+    import photutils.background as pb
+    c, A, B, share, reqs = gen_sequence(seed)
+    fails = []
+    cfg = f"{share}/{c['bkg']}/{c['rms']}/box={c['box']}/shape={c['data'].shape}"
+    fresh = (lambda: pb.BkgIDWInterpolator()) if share == 'explicit-idw' else (lambda: pb.BkgZoomInterpolator())
+    with warnings.catch_warnings():
+        warnings.simplefilter('ignore')
+        refs = []
+        for req in reqs:            # isolation: a fresh interpolator instance per request, before the sequence
+            try:
+                b = _seq_build(c, A, B, req, fresh())
+                refs.append((np.array(b.background), np.array(b.background_rms)))
+            except ValueError as e:
+                if ALLEXC not in str(e):
+                    raise
+                refs.append(None)
+        shared = None if share == 'default' else fresh()
+        for n, (req, ref) in enumerate(zip(reqs, refs)):
+            try:
+                b = _seq_build(c, A, B, req, shared)
+            except ValueError as e:
+                if ALLEXC not in str(e):
+                    raise
+                if ref is not None:
+                    fails.append(('Background2D:shared-interpolator-state', f'request {n} ({req["kind"]}) raises in the '
+                                  f'sequence but not in isolation ({cfg})'))
+                continue
+            if ref is None:
+                fails.append(('Background2D:shared-interpolator-state', f'request {n} ({req["kind"]}) raises in isolation '
+                              f'but not in the sequence ({cfg})'))
+                continue
+            for ch in req['order']:
+                got = b.background if ch == 'b' else b.background_rms
+                want = ref[0] if ch == 'b' else ref[1]
+                name = 'background' if ch == 'b' else 'background_rms'
+                if not np.array_equal(np.asarray(got), want, equal_nan=True):
+                    bad = ~((np.asarray(got) == want) | (np.isnan(np.asarray(got)) & np.isnan(want)))
+                    y, x = np.argwhere(bad)[0]
+                    fails.append(('Background2D:shared-interpolator-state',
+                                  f'object {n} of a sequence ({req["kind"]}, fill_value={req["fill"]}): {name}[{y},{x}] = '
+                                  f'{np.asarray(got)[y, x]!r} but the same request in isolation gives {want[y, x]!r}; '
+                                  f'previous requests: {[q["kind"] for q in reqs[:n]]} ({cfg})'))
+                    break
+                if req['scribble']:
+                    arr = np.asarray(got)
+                    if arr.flags.writeable:
+                        arr[...] = 12345.678
+                    again = np.asarray(b.background if ch == 'b' else b.background_rms)
+                    if not np.array_equal(again, want, equal_nan=True):
+                        fails.append(('Background2D:returned-array-aliased',
+                                      f'{name} of object {n} ({req["kind"]}) changes after the caller overwrote the array '
+                                      f'returned by the previous read ({cfg})'))
+                        break
+    return fails[:3]
 
 
 # --------------------------------------------------------------------------
@@ -1030,6 +1220,35 @@ def run(ctx):
                  'scale_nondyadic_1e-12..1e12_rounding_tolerance', 'shift_exact_quantum_multiple_up_to_2^50', 'shift_arbitrary_1e-3..1e8_rounding_tolerance'):
         ctx.support(name, nrel)
 
+    # ---- large boxes, high levels, float32 / integer images ----
+    nbig = 15 if quick else 60
+    for k in range(nbig):
+        sd = ctx.rng.randrange(1 << 40)
+        c = gen_bigbox(sd, k)
+        try:
+            bf = run_bigbox(c)
+        except Exception as e:  # noqa: BLE001
+            bf = [('Background2D:raises:' + type(e).__name__, f'Background2D raised {e!r}'[:300])]
+        ctx.stat('bigbox', f"{c['data'].dtype}/{c['kind']}")
+        ctx.stat('bigbox', 'box_npixels*level>2^24' if min(c['box'][0], c['data'].shape[0]) * min(c['box'][1], c['data'].shape[1]) * c['level'] > 2 ** 24 else 'box_npixels*level<=2^24')
+        ctx.count_case({'bigbox': sd, 'k': k}, True)
+        for sig, msg in bf:
+            ctx.violation(sig, msg, {'bigbox': sd, 'k': k})
+    ctx.support('large_box_high_level_float32_integer_mesh_reference_constant_shift', nbig)
+    # ---- sequences of objects sharing the default / one explicit interpolator instance ----
+    nseq = 40 if quick else 300
+    for _ in range(nseq):
+        sd = ctx.rng.randrange(1 << 40)
+        try:
+            sf = run_sequence(sd)
+        except Exception as e:  # noqa: BLE001
+            sf = [('Background2D:raises:' + type(e).__name__, f'Background2D raised {e!r}'[:300])]
+        ctx.stat('sequences', gen_sequence(sd)[3])
+        ctx.count_case({'sequence': sd}, True)
+        for sig, msg in sf:
+            ctx.violation(sig, msg, {'sequence': sd})
+    ctx.support('object_sequences_sharing_interpolator_equal_isolated_runs_and_no_aliasing', nseq)
+
     # ---- everything again with bottleneck disabled ----
     kseeds = [c['seed'] for c in cases if c['seed'] is not None][: (150 if quick else 1200)]
     rsub = rel_seeds[: (108 if quick else 612)]
@@ -1075,7 +1294,11 @@ def run(ctx):
 def replay(obj):
     r = obj['replay']
     d = r.get('case', r)
-    if d.get('relation'):
+    if 'bigbox' in r:
+        fails = run_bigbox(gen_bigbox(r['bigbox'], r['k']))
+    elif 'sequence' in r:
+        fails = run_sequence(r['sequence'])
+    elif d.get('relation'):
         c = gen_rel(r['seed'], r.get('combo'))
         if r.get('bottleneck') is False:
             print('(this relation failed with bottleneck disabled; replaying with the default dispatch)')
